@@ -1,5 +1,500 @@
-import Plonk.Model.Kzg
+/-
+  C20 — "KZG commitments and openings are exact."
+
+  TWO LEVELS — read this before relying on a statement.
+
+  (A) ABSTRACT GROUP LEVEL (§1–§5).  `G` is an arbitrary additive commutative group with a
+      `Module F G` structure, `F = ZMod R` the BLS12-381 scalar field; `g : G` is a
+      non-degenerate generator, `Nondeg F g : ∀ a, a • g = 0 → a = 0` (prime order).  The SRS is
+      `srs x g i = xⁱ • g`, a commitment is `KzgMath.commit x g p = Σᵢ pᵢ • srs x g i`.
+      These theorems are NOT about the executable curve code `G1.add / G1.smul / G1.msum` of
+      `Plonk/Model/Bls.lean`: the elliptic-curve group law of that model is not proved, it is
+      tied to the `dusk-bls12_381` crate (and hence to this algebra) only by the differential
+      test harness.  What IS taken from the executable model at this level is all the scalar /
+      polynomial code: polynomials are the model's coefficient lists (`toPoly`), the witnesses are
+      the model's `Poly.ruffini` and `aggregateWitness`, the true values are the model's
+      `Poly.evaluate`, and the flattened evaluation is the model's `flatten`.
+      The verifier's equation is the *trapdoor form* used by the model's `batchCheck`
+      (`[x]·ΣuⁱWᵢ = Σuⁱ(Cᵢ + zᵢWᵢ) − (Σuⁱeᵢ)·g`); §5 (`pairing_trapdoor`) shows that for an
+      abstract bilinear non-degenerate pairing this is the pairing equation
+      `e(−W, [x]h)·e(C, h) = 1` of the source.
+      Theorems of this level: `commit_eval commit_add commit_zero commit_smul commit_injective
+      commit_msm_shape single_open_iff single_open_iff_poly aggregate_open_iff
+      aggregate_open_complete aggregate_open_one_wrong aggregate_open_generic batch_check_iff
+      modelDefect_def batch_check_complete batch_check_generic pairing_trapdoor
+      pairing_check_iff` (`aggregate_flatten_eval` links the flattened evaluation to the
+      executable `flatten`).
+
+  (B) EXECUTABLE LEVEL (§6–§9).  Statements about the functions the driver runs
+      (`SRS.setup nextNonzero powersOf truncateKey SRS.trim commit flatten aggregateWitness
+      batchCheck` of `Plonk/Model/Kzg.lean`), with the G1/G2 operations left uninterpreted
+      (the statements say which scalars / points / error codes are handed to them).
+      Theorems of this level: `setup_consistent setup_rejects_zero_degree powers_of_spec
+      next_nonzero_spec trim_prefix trim_enough trim_setup_cases lite_views_agree
+      commit_degree_guard
+      empty_or_mismatched_rejected batch_check_decision flatten_linear aggregate_flatten_eval
+      aggregate_witness_is_quotient`.
+
+  Scope notes (nothing below is weakened, these delimit what the statements say):
+  * Openings are characterised for the HONEST witness (the quotient computed by the model).
+    `single_check_general` (Proofs/KzgMath) gives the equation for an arbitrary witness
+    `W = [w]g`: `(x − z)·w = p(x) − e`; that no adversary can find such a `w` for a wrong `e`
+    without knowing `x` is the computational (q-SDH) assumption and is out of scope.
+  * "for all but at most `k − 1` challenges": the challenges are Fiat–Shamir outputs; the
+    theorems are the algebraic Schwartz–Zippel statements, the random-oracle argument is out of
+    scope.
+  * Finding (edge case, model ≠ source only where the source panics): `truncateKey powers 1` on
+    a TWO-point key asks for 3 points; the model's `take` returns the 2 available ones whereas
+    `powers_of_g[..=2]` would panic.  Unreachable through `SRS.setup`, whose keys have at least
+    `1 + 6 + 1 = 8` points (`setup_consistent`), hence the explicit hypothesis
+    `2 < powers.length` in the length clause of `trim_prefix`.
+  * `flatten` on an empty aggregate is outside the statement (`comms ≠ []`): the source computes
+    `len − 1` on `usize` there (recorded earlier as a suspected defect, hook-only reachability).
+-/
+import Plonk.Proofs.KzgMath
+import Plonk.Proofs.KzgModel
+
 namespace Plonk.Props.C20
-open Plonk
+open Plonk Polynomial
+open Plonk.KzgMath (Nondeg srs agg msmZip ofList Pairing)
+
+variable {G : Type*} [AddCommGroup G] [Module F G]
+
+/-! ## 1. (A) commitments are the linear image of the coefficient vector -/
+
+/-- a commitment `Σᵢ pᵢ • [xⁱ]g` is the evaluation at the secret, in the exponent -/
+theorem commit_eval (x : F) (g : G) (p : F[X]) : KzgMath.commit x g p = p.eval x • g :=
+  KzgMath.commit_eval x g p
+example : KzgMath.commit (2 : F) (1 : F) (X ^ 2 + C 3) = 7 := by
+  rw [commit_eval]; simp; norm_num
+
+/-- additive -/
+theorem commit_add (x : F) (g : G) (p q : F[X]) :
+    KzgMath.commit x g (p + q) = KzgMath.commit x g p + KzgMath.commit x g q :=
+  KzgMath.commit_add x g p q
+
+/-- identity for the zero polynomial -/
+theorem commit_zero (x : F) (g : G) : KzgMath.commit x g (0 : F[X]) = 0 :=
+  KzgMath.commit_zero x g
+
+/-- homogeneous -/
+theorem commit_smul (x : F) (g : G) (a : F) (p : F[X]) :
+    KzgMath.commit x g (a • p) = a • KzgMath.commit x g p :=
+  KzgMath.commit_smul x g a p
+
+/-- two commitments coincide exactly when the polynomials agree at the secret -/
+theorem commit_injective {g : G} (hg : Nondeg F g) (x : F) (p q : F[X]) :
+    KzgMath.commit x g p = KzgMath.commit x g q ↔ p.eval x = q.eval x :=
+  KzgMath.commit_eq_iff hg x p q
+example : Nondeg F (1 : F) := nondeg_one
+
+/-- the zipped MSM `Σ (cᵢ, Pᵢ)` over `coeffs.zip key` (the shape of the executable
+    `G1.msum (p.zip ck)`), for a key `[x⁰]g … [x^(n−1)]g` that is long enough, is the commitment
+    of the polynomial with these coefficients -/
+theorem commit_msm_shape (x : F) (g : G) (cs : List F) (n : ℕ) (h : cs.length ≤ n) :
+    msmZip (cs.zip ((List.range n).map (srs x g))) = KzgMath.commit x g (ofList cs) := by
+  rw [KzgMath.msmZip_zip_srs x g cs n h, KzgMath.commit_eval]
+example : msmZip (([3, 0, 1] : List F).zip ((List.range 4).map (srs (2 : F) (1 : F)))) = (7 : F) := by
+  rw [commit_msm_shape _ _ _ _ (by simp), commit_eval]; simp [ofList]; norm_num
+
+/-! ## 2. (A) single opening -/
+
+/-- **Single opening.**  `p` a coefficient list of the model, witness = commitment of the model's
+    `Poly.ruffini p z`: the verifier's equation `[x]W = C + [z]W − [e]g` holds exactly when the
+    claimed value `e` is the value `Poly.evaluate p z` computed by the model (as field
+    elements; for reduced `e` this is equality of the numbers). -/
+theorem single_open_iff {g : G} (hg : Nondeg F g) (x : F) (p : Poly) (z e : Nat) :
+    x • KzgMath.commit x g (toPoly (Poly.ruffini p z))
+        = KzgMath.commit x g (toPoly p) + toF z • KzgMath.commit x g (toPoly (Poly.ruffini p z))
+          - toF e • g
+      ↔ toF e = toF (Poly.evaluate p z) :=
+  single_open_model hg x p z e
+
+/-- the true value passes … -/
+example : (7 : F) • KzgMath.commit 7 (1 : F) (toPoly (Poly.ruffini [1, 2, 3] 5))
+    = KzgMath.commit 7 (1 : F) (toPoly [1, 2, 3])
+      + toF 5 • KzgMath.commit 7 (1 : F) (toPoly (Poly.ruffini [1, 2, 3] 5)) - toF 86 • 1 := by
+  have ev : Poly.evaluate [1, 2, 3] 5 = 86 := by decide +kernel
+  exact (single_open_iff nondeg_one 7 [1, 2, 3] 5 86).mpr (by rw [ev])
+/-- … and a wrong value does not -/
+example : ¬ ((7 : F) • KzgMath.commit 7 (1 : F) (toPoly (Poly.ruffini [1, 2, 3] 5))
+    = KzgMath.commit 7 (1 : F) (toPoly [1, 2, 3])
+      + toF 5 • KzgMath.commit 7 (1 : F) (toPoly (Poly.ruffini [1, 2, 3] 5)) - toF 85 • 1) := by
+  have ev : Poly.evaluate [1, 2, 3] 5 = 86 := by decide +kernel
+  rw [single_open_iff nondeg_one, ev, toF_inj_of_lt (by decide +kernel) (by decide +kernel)]
+  decide
+
+/-- the same for arbitrary polynomials of `F[X]` and the quotient by `X − z` -/
+theorem single_open_iff_poly {g : G} (hg : Nondeg F g) (x z e : F) (p : F[X]) :
+    x • KzgMath.commit x g (p /ₘ (X - C z))
+        = KzgMath.commit x g p + z • KzgMath.commit x g (p /ₘ (X - C z)) - e • g
+      ↔ e = p.eval z :=
+  KzgMath.single_open_iff hg x z e p
+
+/-! ## 3. (A) aggregated opening at one point -/
+
+/-- **Aggregated opening.**  Polynomials `polys` (model lists) opened at `z` with challenge `v`;
+    witness = commitment of the model's `aggregateWitness polys z v`; the verifier flattens the
+    commitments to `Σ vʲ Cⱼ` and the claimed evaluations to `Σ vʲ eⱼ`.  The check holds exactly
+    when `Σⱼ vʲ (eⱼ − pⱼ(z)) = 0`, the true values `pⱼ(z)` being the model's `Poly.evaluate`. -/
+theorem aggregate_open_iff {g : G} (hg : Nondeg F g) (x : F) (polys : List Poly)
+    (evals : ℕ → Nat) (z v : Nat) :
+    x • KzgMath.commit x g (toPoly (aggregateWitness polys z v))
+        = agg (toF v) polys.length (fun j => KzgMath.commit x g (toPoly (polys.getD j [])))
+          + toF z • KzgMath.commit x g (toPoly (aggregateWitness polys z v))
+          - agg (toF v) polys.length (fun j => toF (evals j)) • g
+      ↔ agg (toF v) polys.length
+          (fun j => toF (evals j) - toF (Poly.evaluate (polys.getD j []) z)) = 0 :=
+  aggregate_open_model hg x polys evals z v
+
+/-- the flattened evaluation used above is what the model's `flatten` returns -/
+theorem aggregate_flatten_eval (comms : List G1) (evals : List Nat) (v : Nat) (hne : comms ≠ [])
+    (hlen : evals.length = comms.length) :
+    toF (flatten comms evals v).2 = agg (toF v) evals.length (fun j => toF (evals.getD j 0)) :=
+  flatten_snd comms evals v hne hlen
+example : ([G1.inf, G1.gen] : List G1) ≠ [] ∧ ([5, 6] : List Nat).length = ([G1.inf, G1.gen] : List G1).length :=
+  ⟨by simp, rfl⟩
+
+/-- completeness: true evaluations pass, for every challenge -/
+theorem aggregate_open_complete {g : G} (hg : Nondeg F g) (x : F) (polys : List Poly)
+    (evals : ℕ → Nat) (z v : Nat)
+    (h : ∀ j < polys.length, toF (evals j) = toF (Poly.evaluate (polys.getD j []) z)) :
+    x • KzgMath.commit x g (toPoly (aggregateWitness polys z v))
+        = agg (toF v) polys.length (fun j => KzgMath.commit x g (toPoly (polys.getD j [])))
+          + toF z • KzgMath.commit x g (toPoly (aggregateWitness polys z v))
+          - agg (toF v) polys.length (fun j => toF (evals j)) • g :=
+  (aggregate_open_model hg x polys evals z v).mpr (modelDefect_eq_zero_of_true polys evals z v h)
+example : ∀ j < ([[1, 2], [3]] : List Poly).length,
+    toF ((fun j => Poly.evaluate (([[1, 2], [3]] : List Poly).getD j []) 4) j)
+      = toF (Poly.evaluate (([[1, 2], [3]] : List Poly).getD j []) 4) := fun _ _ => rfl
+
+/-- exactly one wrong evaluation and a non-zero challenge: the check fails -/
+theorem aggregate_open_one_wrong {g : G} (hg : Nondeg F g) (x : F) (polys : List Poly)
+    (evals : ℕ → Nat) (z v : Nat) (hv : toF v ≠ 0) (j0 : ℕ) (hj0 : j0 < polys.length)
+    (hw : toF (evals j0) ≠ toF (Poly.evaluate (polys.getD j0 []) z))
+    (hoth : ∀ j < polys.length, j ≠ j0 →
+      toF (evals j) = toF (Poly.evaluate (polys.getD j []) z)) :
+    ¬ (x • KzgMath.commit x g (toPoly (aggregateWitness polys z v))
+        = agg (toF v) polys.length (fun j => KzgMath.commit x g (toPoly (polys.getD j [])))
+          + toF z • KzgMath.commit x g (toPoly (aggregateWitness polys z v))
+          - agg (toF v) polys.length (fun j => toF (evals j)) • g) := by
+  rw [aggregate_open_iff hg]
+  exact KzgMath.agg_single_ne_zero (toF v) hv _ _ j0 hj0 (sub_ne_zero.mpr hw)
+    (fun j hj hne => by rw [hoth j hj hne, sub_self])
+/-- hypotheses satisfiable: two polynomials, second evaluation wrong -/
+example : toF 2 ≠ 0 ∧ (1 : ℕ) < ([[1, 2], [3]] : List Poly).length ∧
+    toF ((fun j => if j = 0 then 9 else 4) 1)
+      ≠ toF (Poly.evaluate (([[1, 2], [3]] : List Poly).getD 1 []) 4) ∧
+    ∀ j < ([[1, 2], [3]] : List Poly).length, j ≠ 1 →
+      toF ((fun j => if j = 0 then 9 else 4) j)
+        = toF (Poly.evaluate (([[1, 2], [3]] : List Poly).getD j []) 4) := by
+  have e0 : Poly.evaluate [1, 2] 4 = 9 := by decide +kernel
+  have e1 : Poly.evaluate [3] 4 = 3 := by decide +kernel
+  refine ⟨?_, by decide, ?_, ?_⟩
+  · rw [Ne, toF_eq_zero_of_lt (by decide +kernel)]; decide
+  · show toF 4 ≠ toF (Poly.evaluate [3] 4)
+    rw [e1, Ne, toF_inj_of_lt (by decide +kernel) (by decide +kernel)]; decide
+  · intro j hj hne
+    have : j = 0 := by simp at hj; omega
+    subst this
+    show toF 9 = toF (Poly.evaluate [1, 2] 4)
+    rw [e0]
+
+/-- for all but at most `k − 1` challenges `v` (`k` the number of polynomials) the aggregated
+    check passes exactly when EVERY claimed evaluation is the true value -/
+theorem aggregate_open_generic {g : G} (hg : Nondeg F g) (x : F) (polys : List Poly)
+    (evals : ℕ → Nat) (z : Nat) :
+    ∃ bad : Finset F, bad.card ≤ polys.length - 1 ∧ ∀ v : Nat, toF v ∉ bad →
+      (x • KzgMath.commit x g (toPoly (aggregateWitness polys z v))
+          = agg (toF v) polys.length (fun j => KzgMath.commit x g (toPoly (polys.getD j [])))
+            + toF z • KzgMath.commit x g (toPoly (aggregateWitness polys z v))
+            - agg (toF v) polys.length (fun j => toF (evals j)) • g
+        ↔ ∀ j < polys.length, toF (evals j) = toF (Poly.evaluate (polys.getD j []) z)) := by
+  obtain ⟨bad, hc, hb⟩ := KzgMath.agg_zero_generic polys.length
+    (fun j => toF (evals j) - toF (Poly.evaluate (polys.getD j []) z))
+  refine ⟨bad, hc, fun v hv => ?_⟩
+  rw [aggregate_open_iff hg, hb (toF v) hv]
+  exact forall₂_congr (fun j _ => sub_eq_zero)
+
+/-! ## 4. (A) batched opening over several points -/
+
+/-- **Batched opening.**  `n` points `zᵢ`; at point `i` the polynomials `polys i` with claimed
+    evaluations `evals i j`, flattened with `vᵢ`, witness = commitment of the model's
+    `aggregateWitness`; outer challenge `u`.  The accumulated equation of `batch_check`
+    `[x]·ΣuⁱWᵢ = Σuⁱ(Cᵢ + [zᵢ]Wᵢ) − [Σuⁱeᵢ]g` holds exactly when `Σᵢ uⁱ δᵢ = 0` with
+    `δᵢ = Σⱼ vᵢʲ (eᵢⱼ − pᵢⱼ(zᵢ))` (`modelDefect`). -/
+theorem batch_check_iff {g : G} (hg : Nondeg F g) (x u : F) (n : ℕ) (polys : ℕ → List Poly)
+    (evals : ℕ → ℕ → Nat) (z v : ℕ → Nat) :
+    x • agg u n (fun i => KzgMath.commit x g (toPoly (aggregateWitness (polys i) (z i) (v i))))
+        = agg u n (fun i =>
+            agg (toF (v i)) (polys i).length
+              (fun j => KzgMath.commit x g (toPoly ((polys i).getD j [])))
+            + toF (z i) • KzgMath.commit x g (toPoly (aggregateWitness (polys i) (z i) (v i))))
+          - agg u n (fun i => agg (toF (v i)) (polys i).length (fun j => toF (evals i j))) • g
+      ↔ agg u n (fun i => modelDefect (polys i) (evals i) (z i) (v i)) = 0 :=
+  batch_check_model hg x u n polys evals z v
+
+/-- `modelDefect` spelled out -/
+theorem modelDefect_def (polys : List Poly) (evals : ℕ → Nat) (z v : Nat) :
+    modelDefect polys evals z v
+      = agg (toF v) polys.length
+          (fun j => toF (evals j) - toF (Poly.evaluate (polys.getD j []) z)) := rfl
+
+/-- completeness: if all claimed evaluations are true the batch passes, for all challenges -/
+theorem batch_check_complete {g : G} (hg : Nondeg F g) (x u : F) (n : ℕ) (polys : ℕ → List Poly)
+    (evals : ℕ → ℕ → Nat) (z v : ℕ → Nat)
+    (h : ∀ i < n, ∀ j < (polys i).length,
+      toF (evals i j) = toF (Poly.evaluate ((polys i).getD j []) (z i))) :
+    x • agg u n (fun i => KzgMath.commit x g (toPoly (aggregateWitness (polys i) (z i) (v i))))
+        = agg u n (fun i =>
+            agg (toF (v i)) (polys i).length
+              (fun j => KzgMath.commit x g (toPoly ((polys i).getD j [])))
+            + toF (z i) • KzgMath.commit x g (toPoly (aggregateWitness (polys i) (z i) (v i))))
+          - agg u n (fun i => agg (toF (v i)) (polys i).length (fun j => toF (evals i j))) • g := by
+  rw [batch_check_iff hg]
+  rw [KzgMath.agg_congr u n (h := fun _ => 0)
+    (fun i hi => modelDefect_eq_zero_of_true _ _ _ _ (h i hi)), KzgMath.agg_zero_fun]
+example : ∀ i < 2, ∀ j < ((fun _ => [[1, 2], [3]]) i : List Poly).length,
+    toF ((fun i j => Poly.evaluate (((fun _ => [[1, 2], [3]]) i : List Poly).getD j []) (i + 4)) i j)
+      = toF (Poly.evaluate (((fun _ => [[1, 2], [3]]) i : List Poly).getD j []) ((fun i => i + 4) i)) :=
+  fun _ _ _ _ => rfl
+
+/-- soundness for generic `u`: outside an exceptional set of at most `n − 1` values of `u`, the
+    batch passes exactly when every per-point defect vanishes; in particular a batch containing
+    an aggregated proof with `δᵢ ≠ 0` fails for all but at most `n − 1` values of `u` -/
+theorem batch_check_generic {g : G} (hg : Nondeg F g) (x : F) (n : ℕ) (polys : ℕ → List Poly)
+    (evals : ℕ → ℕ → Nat) (z v : ℕ → Nat) :
+    ∃ bad : Finset F, bad.card ≤ n - 1 ∧ ∀ u, u ∉ bad →
+      (x • agg u n (fun i =>
+            KzgMath.commit x g (toPoly (aggregateWitness (polys i) (z i) (v i))))
+          = agg u n (fun i =>
+              agg (toF (v i)) (polys i).length
+                (fun j => KzgMath.commit x g (toPoly ((polys i).getD j [])))
+              + toF (z i) • KzgMath.commit x g (toPoly (aggregateWitness (polys i) (z i) (v i))))
+            - agg u n (fun i => agg (toF (v i)) (polys i).length (fun j => toF (evals i j))) • g
+        ↔ ∀ i < n, modelDefect (polys i) (evals i) (z i) (v i) = 0) := by
+  obtain ⟨bad, hc, hb⟩ := KzgMath.agg_zero_generic n
+    (fun i => modelDefect (polys i) (evals i) (z i) (v i))
+  exact ⟨bad, hc, fun u hu => by rw [batch_check_iff hg, hb u hu]⟩
+
+/-! ## 5. (A) the trapdoor decision is the pairing check -/
+
+section
+variable {r : ℕ} [Fact r.Prime] {G₁ H T : Type*} [AddCommGroup G₁] [Module (ZMod r) G₁]
+  [AddCommGroup H] [Module (ZMod r) H] [CommGroup T]
+
+/-- for a bilinear pairing into a group of exponent `r` with `e(g, h) ≠ 1`, and `A`, `B` in the
+    span of `g`: `e(A, [x]h) · e(B, h) = 1 ⇔ [x]A + B = 0` -/
+theorem pairing_trapdoor (E : Pairing r G₁ H T) {g : G₁} {h : H} (hgh : E.e g h ≠ 1)
+    (x a b : ZMod r) :
+    E.e (a • g) (x • h) * E.e (b • g) h = 1 ↔ x • (a • g) + b • g = 0 :=
+  KzgMath.pairing_trapdoor E hgh x a b
+
+/-- the form of `batch_check`: `e(−W, [x]h) · e(C, h) = 1 ⇔ [x]W = C` -/
+theorem pairing_check_iff (E : Pairing r G₁ H T) {g : G₁} {h : H} (hgh : E.e g h ≠ 1)
+    (x w c : ZMod r) :
+    E.e (-(w • g)) (x • h) * E.e (c • g) h = 1 ↔ x • (w • g) = c • g :=
+  KzgMath.pairing_check_iff E hgh x w c
+
+end
+
+/-- non-vacuity: a pairing with `e(g,h) ≠ 1` exists (`G₁ = H = ZMod 3`, `T` = its additive group
+    written multiplicatively, `e(a,b) = a·b`) -/
+example : ∃ E : Pairing 3 (ZMod 3) (ZMod 3) (Multiplicative (ZMod 3)), E.e 1 1 ≠ 1 := by
+  refine ⟨{ e := fun a b => Multiplicative.ofAdd (a * b)
+            map_add_left := fun P P' Q => by rw [add_mul]; rfl
+            map_smul_left := fun a P Q => by
+              rw [← ofAdd_nsmul, smul_eq_mul, nsmul_eq_mul, ZMod.natCast_zmod_val, mul_assoc]
+            map_smul_right := fun a P Q => by
+              rw [← ofAdd_nsmul, smul_eq_mul, nsmul_eq_mul, ZMod.natCast_zmod_val]
+              congr 1; ring
+            pow_card := fun P Q => by
+              rw [← ofAdd_nsmul, nsmul_eq_mul]
+              have : ((3 : ℕ) : ZMod 3) = 0 := ZMod.natCast_self 3
+              rw [this, zero_mul]; rfl }, ?_⟩
+  intro h
+  have h' : ((1 : ZMod 3) * 1) = 0 := Multiplicative.ofAdd.injective h
+  exact absurd h' (by decide)
+
+/-! ## 6. (B) generated public parameters -/
+
+/-- `setup` fails with `DegreeIsZero` exactly for `max_degree < 1` -/
+theorem setup_rejects_zero_degree (m : Nat) (draws : List Nat) :
+    SRS.setup m draws = .error .degreeIsZero ↔ m < 1 :=
+  setup_degreeIsZero_iff m draws
+example : SRS.setup 0 [1, 2, 3] = .error .degreeIsZero := (setup_rejects_zero_degree 0 _).mpr (by decide)
+
+/-- **Consistent parameters.**  A successful `setup` uses ONE secret `x = s.x`, the first
+    non-zero draw (reduced, `≠ 0`); the commit key has `max_degree + blind + 1` points and its
+    `i`-th point is `G1.smul (xⁱ mod r) g` for the single generator `g = s.g`; the opening key's
+    G2 elements are `h` and `G2.smul x h` for the same `x`. -/
+theorem setup_consistent {m : Nat} {draws : List Nat} {s : SRS} (h : SRS.setup m draws = .ok s) :
+    1 ≤ m ∧
+    (∃ rest, nextNonzero draws = some (s.x, rest)) ∧ s.x ≠ 0 ∧ s.x < R ∧
+    s.powers.length = m + Generated.ADDED_BLINDING_DEGREE + 1 ∧
+    s.powers = (List.range (m + Generated.ADDED_BLINDING_DEGREE + 1)).map
+      (fun i => G1.smul (s.x ^ i % R) s.g) ∧
+    s.powers = (powersOf s.x (m + Generated.ADDED_BLINDING_DEGREE)).map (fun k => G1.smul k s.g) ∧
+    s.xh = G2.smul s.x s.h := by
+  obtain ⟨hm, sg, sh, d1, d2, d3, h1, _, _, _, _, hxh, hp⟩ := setup_ok h
+  have hx := setup_secret_nonzero h
+  exact ⟨hm, ⟨d1, h1⟩, hx.1, hx.2.1, setup_powers_length h, setup_powers_eq h, hp, hxh⟩
+/-- a successful run (first draw zero, skipped) -/
+example : (SRS.setup 1 [0, 5, R, 7, 9]).toBool = true := by decide +kernel
+
+/-- `powers_of(x, n) = [x⁰, …, xⁿ]` -/
+theorem powers_of_spec (x n : Nat) :
+    powersOf x n = (List.range (n + 1)).map (fun i => x ^ i % R) ∧
+    (powersOf x n).map toF = (List.range (n + 1)).map (fun i => toF x ^ i) :=
+  ⟨powersOf_eq x n, map_toF_powersOf x n⟩
+example : powersOf 3 3 = [1, 3, 9, 27] := by decide +kernel
+
+/-- `random_nonzero_bls_scalar`: skips zero draws, returns the first non-zero one -/
+theorem next_nonzero_spec {ds : List Nat} {x : Nat} {rest : List Nat}
+    (h : nextNonzero ds = some (x, rest)) :
+    ∃ pre d, ds = pre ++ d :: rest ∧ (∀ a ∈ pre, a % R = 0) ∧ x = d % R ∧ x ≠ 0 ∧ x < R :=
+  nextNonzero_some h
+example : nextNonzero [0, R, 5, 6] = some (5, [6]) := by decide +kernel
+
+/-! ## 7. (B) trimming -/
+
+/-- **Trimming keeps a prefix.**  `truncate(d)`: `TruncatedDegreeIsZero` exactly for `d = 0`,
+    `TruncatedDegreeTooLarge` exactly for `0 < d` beyond the key's degree, otherwise exactly the
+    prefix of `(if d = 1 then 2 else d) + 1` points; `trim(n) = truncate(n + blind)`. -/
+theorem trim_prefix (s : SRS) (n : Nat) (powers : List G1) (d : Nat) :
+    SRS.trim s n = truncateKey s.powers (n + Generated.ADDED_BLINDING_DEGREE) ∧
+    (truncateKey powers d = .error .truncatedDegreeIsZero ↔ d = 0) ∧
+    (truncateKey powers d = .error .truncatedDegreeTooLarge ↔ d ≠ 0 ∧ d > powers.length - 1) ∧
+    (∀ ck, truncateKey powers d = .ok ck ↔
+      d ≠ 0 ∧ d ≤ powers.length - 1 ∧ ck = powers.take ((if d = 1 then 2 else d) + 1)) ∧
+    (∀ ck, truncateKey powers d = .ok ck → ck <+: powers ∧
+      (2 < powers.length → ck.length = (if d = 1 then 2 else d) + 1)) :=
+  ⟨rfl, truncateKey_zero_iff _ _, truncateKey_tooLarge_iff _ _, truncateKey_ok_iff _ _,
+    fun _ h => ⟨truncateKey_prefix h, truncateKey_length h⟩⟩
+example : truncateKey [G1.inf, G1.gen, G1.inf, G1.gen, G1.inf] 3 = .ok [G1.inf, G1.gen, G1.inf, G1.gen] := by
+  decide
+example : truncateKey [G1.inf, G1.gen, G1.inf] 3 = .error .truncatedDegreeTooLarge := by decide
+
+/-- **The trimmed key is long enough.**  As in `Compiler::compile`: a circuit with `c`
+    constraints is proved over the domain `size = next_pow2(c)`, the key is trimmed to
+    `n = next_pow2(c + padding)`.  On a generated SRS with `n ≤ max_degree` the trim succeeds,
+    is a prefix with exactly `n + blind + 1` points, supports degree `n + blind ≥ size + 6`, and
+    `commit` accepts every polynomial of degree `≤ size + 6` (the prover commits degrees up to
+    `size + 1, size + 2, size + 5, size + 6`). -/
+theorem trim_enough {m : Nat} {draws : List Nat} {s : SRS} (hs : SRS.setup m draws = .ok s)
+    (c : Nat) (hfit : nextPow2' (c + Generated.CIRCUIT_SIZE_PADDING) ≤ m) :
+    ∃ ck, SRS.trim s (nextPow2' (c + Generated.CIRCUIT_SIZE_PADDING)) = .ok ck ∧
+      ck <+: s.powers ∧
+      ck.length = nextPow2' (c + Generated.CIRCUIT_SIZE_PADDING)
+        + Generated.ADDED_BLINDING_DEGREE + 1 ∧
+      nextPow2' c + 6 ≤ ck.length - 1 ∧
+      ∀ p : Poly, Poly.degree p ≤ nextPow2' c + 6 →
+        Plonk.commit ck p = .ok (G1.msum (p.zip ck)) :=
+  Plonk.trim_enough hs c hfit
+example : (SRS.setup 16 [3, 5, 7]).toBool = true ∧
+    nextPow2' (5 + Generated.CIRCUIT_SIZE_PADDING) ≤ 16 := by
+  constructor <;> decide +kernel
+
+/-- trimming a generated SRS succeeds exactly up to `max_degree` -/
+theorem trim_setup_cases {m : Nat} {draws : List Nat} {s : SRS} (h : SRS.setup m draws = .ok s)
+    (n : Nat) :
+    (n ≤ m ∧ SRS.trim s n = .ok (s.powers.take (n + Generated.ADDED_BLINDING_DEGREE + 1)) ∧
+      (s.powers.take (n + Generated.ADDED_BLINDING_DEGREE + 1)).length
+        = n + Generated.ADDED_BLINDING_DEGREE + 1) ∨
+    (m < n ∧ SRS.trim s n = .error .truncatedDegreeTooLarge) :=
+  trim_setup h n
+
+/-- the powers-free views used by the trapdoor prover (`SRS.setupLite`, `truncateLen`) agree with
+    the full functions: same errors, same `g, h, [x]h, x`, and the reported lengths are the
+    lengths of the full / truncated key -/
+theorem lite_views_agree (m : Nat) (draws : List Nat) (powers : List G1) (d : Nat) :
+    SRS.setupLite m draws
+      = (SRS.setup m draws).map (fun s => ({ s with powers := [] }, s.powers.length)) ∧
+    truncateLen powers.length d = (truncateKey powers d).map List.length :=
+  ⟨setupLite_eq m draws, truncateLen_eq powers d⟩
+example : truncateLen 5 3 = .ok 4 := by decide
+
+/-! ## 8. (B) commitment degree guard -/
+
+/-- **Degree guard.**  `commit` fails, with `PolynomialDegreeTooLarge`, exactly when the degree
+    of the polynomial exceeds the key's degree; otherwise it returns the MSM of the zipped
+    (coefficient, point) pairs, and the coefficients that the zip drops (raw list longer than
+    the key) are all zero. -/
+theorem commit_degree_guard (ck : List G1) (p : Poly) :
+    (Plonk.commit ck p = .error .polynomialDegreeTooLarge ↔ Poly.degree p > ck.length - 1) ∧
+    (∀ e, Plonk.commit ck p = .error e → e = .polynomialDegreeTooLarge) ∧
+    (Poly.degree p ≤ ck.length - 1 → Plonk.commit ck p = .ok (G1.msum (p.zip ck))) ∧
+    (ck ≠ [] → Poly.degree p ≤ ck.length - 1 → ∀ i, ck.length ≤ i → p.getD i 0 = 0) := by
+  refine ⟨?_, ?_, ?_, ?_⟩
+  · rw [commit_error_iff]; simp
+  · intro e he; exact ((commit_error_iff ck p e).mp he).1
+  · intro h; exact (commit_ok_iff ck p _).mpr ⟨h, rfl⟩
+  · intro hck h i hi; exact commit_guard_no_loss hck h hi
+example : Plonk.commit [G1.gen, G1.gen] [1, 2, 3] = .error .polynomialDegreeTooLarge :=
+  (commit_degree_guard _ _).1.mpr (by decide)
+example : Poly.degree [1, 2, 0] ≤ ([G1.gen, G1.gen] : List G1).length - 1 := by decide
+
+/-! ## 9. (B) batch check, flattening, aggregate witness -/
+
+/-- **Empty or mismatched batches are rejected** with `ProofVerificationError`, before anything
+    else, and only those are. -/
+theorem empty_or_mismatched_rejected (s : SRS) (t : Transcript) (points : List Nat)
+    (proofs : List KProof) :
+    batchCheck s t points proofs = .error .proofVerificationError
+      ↔ proofs = [] ∨ points.length ≠ proofs.length :=
+  batchCheck_reject_iff s t points proofs
+example (s : SRS) (t : Transcript) : batchCheck s t [] [] = .error .proofVerificationError :=
+  (empty_or_mismatched_rejected s t [] []).mpr (Or.inl rfl)
+example (s : SRS) (t : Transcript) (p : KProof) :
+    batchCheck s t [0] [p, p] = .error .proofVerificationError :=
+  (empty_or_mismatched_rejected s t [0] [p, p]).mpr (Or.inr (by simp))
+
+/-- on a well-formed batch the outcome is `Ok` or `PairingCheckFailure`, decided by the single
+    G1 equation `[x]·ΣuⁱWᵢ = Σuⁱ(Cᵢ + zᵢWᵢ) − (Σuⁱeᵢ)·g` with `u` the transcript challenge and
+    `uⁱ` taken from `powersOf u` -/
+theorem batch_check_decision (s : SRS) (t : Transcript) (points : List Nat)
+    (proofs : List KProof) (hne : proofs ≠ []) (hlen : points.length = proofs.length) :
+    (batchCheck s t points proofs = .ok () ∨
+      batchCheck s t points proofs = .error .pairingCheckFailure) ∧
+    (batchCheck s t points proofs = .ok () ↔
+      (let u := (batchChallenge t points proofs).2
+       let rows := (proofs.zip (powersOf u (proofs.length - 1))).zip points
+       G1.smul s.x (G1.msum (rows.map fun r => (r.1.2, r.1.1.witness)))
+        = G1.add (G1.msum (rows.flatMap fun r =>
+              [(r.1.2, r.1.1.comm), (fmul r.1.2 r.2, r.1.1.witness)]))
+            (G1.neg (G1.smul (rows.foldl (fun acc r => fadd acc (fmul r.1.2 r.1.1.eval)) 0)
+              s.g)))) := by
+  refine ⟨?_, batchCheck_ok_iff s t points proofs hne hlen⟩
+  rcases batchCheck_cases s t points proofs with h | h | h
+  · exact Or.inl h
+  · exact absurd ((batchCheck_reject_iff s t points proofs).mp h) (by simp [hne, hlen])
+  · exact Or.inr h
+example : ([default] : List KProof) ≠ [] ∧ ([0] : List Nat).length = ([default] : List KProof).length :=
+  ⟨by simp, rfl⟩
+
+/-- **`flatten` is the linear combination with the powers of `v`**: the G1 component is the MSM
+    of the commitments against `powersOf v`, the scalar component is `Σⱼ vʲ eⱼ` -/
+theorem flatten_linear (comms : List G1) (evals : List Nat) (v : Nat) (hne : comms ≠ [])
+    (hlen : evals.length = comms.length) :
+    (flatten comms evals v).1 = G1.msum ((powersOf v (comms.length - 1)).zip comms) ∧
+    powersOf v (comms.length - 1) = (List.range comms.length).map (fun i => v ^ i % R) ∧
+    toF (flatten comms evals v).2
+      = agg (toF v) evals.length (fun j => toF (evals.getD j 0)) := by
+  refine ⟨rfl, ?_, flatten_snd comms evals v hne hlen⟩
+  have : 0 < comms.length := List.length_pos_iff.mpr hne
+  rw [powersOf_eq, show comms.length - 1 + 1 = comms.length by omega]
+example : (flatten [G1.inf, G1.inf, G1.inf] [5, 6, 7] 10).2 = 765 := by decide +kernel
+example : ([G1.inf, G1.inf, G1.inf] : List G1) ≠ [] ∧
+    ([5, 6, 7] : List Nat).length = ([G1.inf, G1.inf, G1.inf] : List G1).length := ⟨by simp, rfl⟩
+
+/-- **`compute_aggregate_witness`** is the quotient of `Σⱼ vʲ pⱼ` by `X − z` -/
+theorem aggregate_witness_is_quotient (polys : List Poly) (z v : Nat) :
+    toPoly (aggregateWitness polys z v)
+      = agg (toF v) polys.length (fun j => toPoly (polys.getD j [])) /ₘ (X - C (toF z)) :=
+  toPoly_aggregateWitness_agg polys z v
+example : aggregateWitness [[1, 2, 1], [0, 1]] 1 2 = [5, 1] := by decide +kernel
+
+/-- the extracted constants used above (name kept from the scaffold) -/
 theorem placeholder_consts : Generated.ADDED_BLINDING_DEGREE = 6 := by decide
+
 end Plonk.Props.C20
